@@ -986,7 +986,7 @@ func runC17(cfg *runCfg) error {
 	// ---- seq: random walks over the labels the model enables
 	nRand := 500
 	if cfg.tier == "thorough" {
-		nRand = 6000
+		nRand = 10000
 	} else if cfg.tier == "search" {
 		nRand = 1500
 	}
@@ -1040,6 +1040,9 @@ func runC17(cfg *runCfg) error {
 		mm := 1
 		for k := 0; k < 2; k++ {
 			ep := c17Epoch{AtDial: next(1 + 5*k), AtOpt: next(2 + 5*k), AtConn: next(3 + 5*k), SendFirst: mask%2 == 0}
+			if k == 1 && mask%5 == 0 {
+				ep.DialH = 91 // the dialer leaves its own handler on the second client: Connect must replace it
+			}
 			ep.Burst = []c17Label{{Op: "ib", K: k, M: mm, Q: 0}, {Op: "ib", K: k, M: mm + 1, Q: 1}}
 			ep.AtActive = next(4 + 5*k)
 			ep.Later = [][]c17Label{{{Op: "ib", K: k, M: mm + 2, Q: 1}}}
@@ -1054,7 +1057,7 @@ func runC17(cfg *runCfg) error {
 	}
 	nLoop := 250
 	if cfg.tier == "thorough" {
-		nLoop = 4000
+		nLoop = 6000
 	} else if cfg.tier == "search" {
 		nLoop = 800
 	}
@@ -1067,7 +1070,7 @@ func runC17(cfg *runCfg) error {
 	// ---- race: Handle truly concurrent with a window of steps on a bare RetryClient
 	nRace := 300
 	if cfg.tier == "thorough" {
-		nRace = 5000
+		nRace = 8000
 	} else if cfg.tier == "search" {
 		nRace = 600
 	}
